@@ -88,7 +88,7 @@ def job_build(ses, proto):
                     Select(b2['P'], EXP) == And(Select(sb.P, EXP), Not(sb.NE)), Implies(Select(b2['P'], EXP), Select(b2['V'], EXP) == Select(sb.V, EXP)),
                     opt_eq(b2['footer'], footer_opt(sb.F)), opt_eq(b2['assertion'], assertion_opt(sb.A)) if akind == 'some' else BoolVal(True))
         if upper_obligation(ses, '%s build (%s): the builder keeps its claims (exp removed only under the acknowledgement), footer and assertion - a second build sees the same state' % (proto, describe(r)),
-                            list(s2.pc) + md + [Not(sb.DUP), Not(frame)], values=[kq]):
+                            list(s2.pc) + md + [Not(frame)], values=[kq]):
             ses.violation('%s: build() alters the builder\'s claims / footer / assertion (a later build produces a different token, e.g. without exp)' % proto, {}, {'kind': 'c13', 'proto': proto})
         core = [e for e in s2.log if e[0] == 'core_build']
         if is_ok(r):
